@@ -13,14 +13,14 @@ Open Scope N_scope.
 Theorem C15_unique_partial : forall (c0 : N) (tr : list label) (s : state),
   c0 < M32 -> reach M32 c0 tr s -> ~ Known_C15 tr -> nfetch s <= M32 ->
   (NoDup (serials s) /\ ~ In 0 (serials s)) /\ ~ In Panicked (ops s).
-Proof. intros c0 tr s. exact (unique_partial M32 c0 tr s eq_refl). Qed.
+Proof. exact unique_partial32. Qed.
 Print Assumptions C15_unique_partial.
 
 (* the same in terms of messages: any 2^32 - 1 builds (finished or not), from any counter value *)
 Theorem C15_messages_partial : forall (c0 : N) (tr : list label) (s : state),
   c0 < M32 -> reach M32 c0 tr s -> ~ Known_C15 tr -> N.of_nat (length (ops s)) < M32 ->
   (NoDup (serials s) /\ ~ In 0 (serials s)) /\ ~ In Panicked (ops s).
-Proof. intros c0 tr s. exact (messages_partial M32 c0 tr s eq_refl). Qed.
+Proof. exact messages_partial32. Qed.
 Print Assumptions C15_messages_partial.
 
 (* the statement does not depend on the width of the counter *)
